@@ -50,7 +50,9 @@ def correspondence(ctx, violations, known_hits):
     cases = gen(ctx.tier, ctx.seed)
     d = clicommon.fresh_dir(ctx, "cli")
     model = ctx.run_model([C06.obj_case(0, t) for _, t in cases], tag="obj")
-    dests = ["absent", "existing", "existing-empty", "existing-prefix", "existing-extended", "devfull", "missingdir", "isdir"]
+    # the full device and the missing directory are reached through symbolic links INSIDE the scratch directory (never the
+    # real /dev/full: a compile that mistreats its destination must not be able to damage the machine)
+    dests = ["absent", "existing", "existing-empty", "existing-prefix", "existing-extended", "devfull", "missingdir", "isdir", "dangling-link"]
 
     def pre_contents(i, dest_kind):
         """What the destination holds before `compile` for the `existing*` kinds: unrelated bytes, nothing, a proper PREFIX
@@ -70,7 +72,9 @@ def correspondence(ctx, violations, known_hits):
             elif dest_kind.startswith("existing"):
                 dest = os.path.join(sub, "out.lc3"); open(dest, "wb").write(pre_contents(i, dest_kind))
             elif dest_kind == "devfull":
-                dest = "/dev/full"
+                dest = os.path.join(sub, "full"); os.symlink("/dev/full", dest)
+            elif dest_kind == "dangling-link":
+                dest = os.path.join(sub, "dangling"); os.symlink(os.path.join(sub, "nodir", "x.lc3"), dest)
             elif dest_kind == "missingdir":
                 dest = os.path.join(sub, "nodir", "out.lc3")
             else:
@@ -82,15 +86,17 @@ def correspondence(ctx, violations, known_hits):
                 after = "exists" if os.path.exists(dest) else None
             elif dest_kind == "isdir":
                 after = "dir" if os.path.isdir(dest) and not os.listdir(dest) else "changed"
+            elif dest_kind == "devfull":
+                after = "chardev" if os.path.islink(dest) and os.readlink(dest) == "/dev/full" and len(os.listdir(sub)) == 2 else "changed"
             else:
-                after = "chardev" if os.path.exists("/dev/full") and not os.path.isfile("/dev/full") else "changed"
+                after = "link" if os.path.islink(dest) and not os.path.exists(dest) and len(os.listdir(sub)) == 2 else "changed"
             return rc, after
         return run
 
     jobs, meta = [], []
     for i in range(len(cases)):
         for dk in dests:
-            if dk in ("devfull", "missingdir", "isdir", "existing-empty", "existing-prefix", "existing-extended") and cases[i][0].startswith("emit-error") and i % 7 != 0:
+            if dk in ("devfull", "missingdir", "isdir", "dangling-link", "existing-empty", "existing-prefix", "existing-extended") and cases[i][0].startswith("emit-error") and i % 7 != 0:
                 continue      # destination faults are orthogonal to the failing statement position: sample them
             jobs.append(job(i, dk)); meta.append((i, dk))
     res = clicommon.parallel(jobs)
@@ -100,7 +106,7 @@ def correspondence(ctx, violations, known_hits):
         mo = [int(x, 16) for x in model[i][0].split()]
         exp_bytes = bytes(mo[2:2 + mo[1]]) if mo[0] == 0 else None
         ev += 1
-        before = pre_contents(i, dk) if dk.startswith("existing") else {"absent": None, "devfull": "chardev", "missingdir": None, "isdir": "dir"}[dk]
+        before = pre_contents(i, dk) if dk.startswith("existing") else {"absent": None, "devfull": "chardev", "missingdir": None, "isdir": "dir", "dangling-link": "link"}[dk]
         if dk == "absent" or dk.startswith("existing"):
             good = (rc == 0 and mo[0] == 0 and after == exp_bytes) or (rc != 0 and mo[0] != 0 and after == before)
         else:
@@ -123,7 +129,7 @@ def correspondence(ctx, violations, known_hits):
         "evaluations": ev, "distinct_nontrivial": len(sigs),
         "rule": "fault enumeration at the CLI: an out-of-range label reference injected at EVERY statement position 0..n of programs "
                 "with n up to 40 (several PC-relative instructions), plus parse/lex/label errors and valid programs, x destination "
-                "absent / pre-existing with unrelated contents, empty, a proper prefix of the new object file, the new object file followed by stale words / /dev/full / missing directory / a directory in place of the file; "
+                "absent / pre-existing with unrelated contents, empty, a proper prefix of the new object file, the new object file followed by stale words / a link to /dev/full / missing directory / a directory in place of the file / a dangling link; the scratch directory must hold nothing new; "
                 "observed: exit status and the bytes at the destination before and after; distinct = distinct (class, destination, exit==0)",
         "exhaustive": True, "exhaustive_over": "failing statement position 0..n for each listed n",
         "histogram": hist, "samples": samples, "mismatches": nv,
